@@ -29,6 +29,7 @@ type bzCase struct {
 	T    ref.DT
 	Sect int
 	Base int
+	Prior int // 0, or the offset of the base year of a look-up for the same pillars made just before (its result is discarded)
 }
 
 func pillars(t ref.DT, sect int) [4]string {
@@ -92,7 +93,7 @@ func jieNear(t ref.DT) (inSlot bool, beforeInSlot bool) {
 
 var reverse = ev.Register(&ev.P[bzCase]{
 	Name: "reverse_lookup_roundtrip",
-	Rule: "moments from Xiaohan of the base year to the end of the current year (every Jie 1900..current year x offsets in minutes {-125,-61,-59,-31,-1,0,+1,+31,+61,+119} swept; Lichun day, both sides of midnight, uniform moments generated), sect in {1,2} (2 also passed as 0, 3, −1, which mean 2), base year in {1900 default, 1600, 1984, 2000, and 1582, 1500, 1000 — whose Jie terms lie on the Julian side of the calendar switch} or any year 900..current; moments also in the first weeks after the base year's first Jie, and (for soundness and the lower bound only) in the weeks before the base year; oracle: forward pillars of the moment -> ListSolarFromBaZiBySectAndBaseYear must contain a moment in the same two-hour slot (completeness), every returned moment converted forward has exactly the requested pillars under the requested sect and year >= base (soundness), the list is strictly increasing by R-civil instant, and the default-argument wrappers equal their explicit forms; non-trivial: the slot contains a Jie instant, is the rat slot, or the day is a Jie day",
+	Rule: "moments from Xiaohan of the base year to the end of the current year (every Jie 1900..current year x offsets in minutes {-125,-61,-59,-31,-1,0,+1,+31,+61,+119} swept; Lichun day, both sides of midnight, uniform moments generated), sect in {1,2} (2 also passed as 0, 3, −1, which mean 2), base year in {1900 default, 1600, 1984, 2000, and 1582, 1500, 1000 — whose Jie terms lie on the Julian side of the calendar switch} or any year 900..current; moments also in the first weeks after the base year's first Jie, and (for soundness and the lower bound only) in the weeks before the base year; oracle: forward pillars of the moment -> ListSolarFromBaZiBySectAndBaseYear must contain a moment in the same two-hour slot (completeness), every returned moment converted forward has exactly the requested pillars under the requested sect and year >= base (soundness), the list is strictly increasing by R-civil instant, and the default-argument wrappers equal their explicit forms; in most generated cases a look-up for the same pillars from a neighbouring base year (base +1, −1, +2, ±60) is made first and discarded — the answer for the base under test may not depend on it; non-trivial: the slot contains a Jie instant, is the rat slot, or the day is a Jie day",
 	Check: func(c bzCase) error {
 		t := c.T
 		p := pillars(t, c.Sect)
@@ -108,6 +109,14 @@ var reverse = ev.Register(&ev.P[bzCase]{
 		arg := c.Sect
 		if c.Sect == 2 {
 			arg = []int{2, 2, 0, 3, -1}[(t.D+t.Mi+t.S)%5]
+		}
+		// a look-up for the same pillars from a neighbouring base year comes first: what it returns is not looked at, and
+		// it may not change what the look-up under test returns
+		if c.Prior != 0 && c.Base+c.Prior >= 1 {
+			func() {
+				defer func() { _ = recover() }()
+				calendar.ListSolarFromBaZiBySectAndBaseYear(p[0], p[1], p[2], p[3], arg, c.Base+c.Prior)
+			}()
 		}
 		lst := calendar.ListSolarFromBaZiBySectAndBaseYear(p[0], p[1], p[2], p[3], arg, c.Base)
 		var got []ref.DT
@@ -244,11 +253,11 @@ func TestC10(t *testing.T) {
 		for _, d := range []int{29, 30, 31} {
 			for h := 0; h < 24; h++ {
 				for _, sect := range []int{1, 2} {
-					reverse.Eval(bzCase{ref.DT{Y: lastYear, M: 12, D: d, H: h, Mi: 30}, sect, 1900})
+					reverse.Eval(bzCase{T: ref.DT{Y: lastYear, M: 12, D: d, H: h, Mi: 30}, Sect: sect, Base: 1900})
 				}
 			}
 		}
-		reverse.Eval(bzCase{ref.DT{Y: lastYear, M: 12, D: 31, H: 23, Mi: 59, S: 59}, 2, 2000})
+		reverse.Eval(bzCase{T: ref.DT{Y: lastYear, M: 12, D: 31, H: 23, Mi: 59, S: 59}, Sect: 2, Base: 2000})
 	}
 	bases := []int{1900, 1600, 1984, 2000, 1500, 1000, 1582, 1900, 1900}
 	offs := []int64{-125, -61, -59, -31, -1, 0, 1, 31, 61, 119}
@@ -268,7 +277,7 @@ func TestC10(t *testing.T) {
 					continue
 				}
 				for _, sect := range []int{1, 2} {
-					reverse.Eval(bzCase{m, sect, 1900})
+					reverse.Eval(bzCase{T: m, Sect: sect, Base: 1900})
 				}
 			}
 		}
@@ -295,7 +304,7 @@ func TestC10(t *testing.T) {
 			if m.Y < 2 {
 				m = ref.DT{Y: base, M: 8, D: 15, H: 12}
 			}
-			return bzCase{m, sect, base}
+			return bzCase{T: m, Sect: sect, Base: base}
 		case 0: // rat hour on both sides of midnight
 			m = gen.MomentIn(t, lo, lastYear)
 			m.H = rapid.SampledFrom([]int{23, 0}).Draw(t, "ratHour")
@@ -315,7 +324,7 @@ func TestC10(t *testing.T) {
 		if m.Y > lastYear || m.Sec() < firstJie(base).Sec() {
 			m = ref.DT{Y: base, M: 8, D: 15, H: 12}
 		}
-		return bzCase{m, sect, base}
+		return bzCase{T: m, Sect: sect, Base: base, Prior: rapid.SampledFrom([]int{0, 0, 1, -1, 1, 2, 60, -60}).Draw(t, "priorBaseOffset")}
 	})
 	unsat.Rapid(ev.Share(ev.Pick(1600, 32000)), func(t *rapid.T) badCase {
 		y := rapid.IntRange(0, 59).Draw(t, "y")
